@@ -16,6 +16,7 @@ import (
 	"os"
 	"os/exec"
 	"path/filepath"
+	"regexp"
 	"strconv"
 	"strings"
 	"time"
@@ -387,9 +388,41 @@ func (eng *Engine) replayObligationN(t target, name, kind, verif, prop string, N
 	// the parameters' entry heaps are the @<id> versions of the base state, recorded in vcq.
 	entry := vcq.entry
 	var roots []*qnode
-	for _, p := range t.fn.Params {
-		pv := vcq.paramVals[p.Name()]
-		roots = append(roots, rp.build(pv.term, p.Type(), 0, entry))
+	var recipe string
+	var holes []string
+	if t.ct != nil && t.ct.Replay != "" {
+		// replay recipe: a Go expression with ${spec-path} placeholders evaluated in the entry state
+		recipe = t.ct.Replay
+		env := &specEnv{vc: vcq, pkg: rp.pkg, vars: map[string]specVal{}, st: entry, old: entry, where: "replay recipe"}
+		for name, pv := range vcq.paramVals {
+			env.vars[name] = pv
+		}
+		var perr error
+		func() {
+			defer func() {
+				if x := recover(); x != nil {
+					perr = fmt.Errorf("%v", x)
+				}
+			}()
+			for _, m := range regexp.MustCompile(`\$\{([^}]*)\}`).FindAllStringSubmatch(recipe, -1) {
+				e, err := parseExpr(m[1])
+				if err != nil {
+					perr = err
+					return
+				}
+				v := env.tr(e)
+				holes = append(holes, m[0])
+				roots = append(roots, rp.build(v.term, v.typ, 0, entry))
+			}
+		}()
+		if perr != nil {
+			return replayResult{false, "no-failing-input-found: bad replay recipe: " + perr.Error()}
+		}
+	} else {
+		for _, p := range t.fn.Params {
+			pv := vcq.paramVals[p.Name()]
+			roots = append(roots, rp.build(pv.term, p.Type(), 0, entry))
+		}
 	}
 	var sb strings.Builder
 	for _, l := range vcq.out {
@@ -410,7 +443,7 @@ func (eng *Engine) replayObligationN(t target, name, kind, verif, prop string, N
 	os.WriteFile(qfile, []byte(sb.String()), 0o644)
 	ctx, cancel := context.WithTimeout(context.Background(), 40*time.Second)
 	defer cancel()
-	out, _ := exec.CommandContext(ctx, "z3-new", "-smt2", "-t:30000", qfile).CombinedOutput()
+	out, _ := exec.CommandContext(ctx, "z3-new", "-smt2", "-t:10000", qfile).CombinedOutput()
 	text := string(out)
 	first := strings.TrimSpace(strings.SplitN(text, "\n", 2)[0])
 	if first != "sat" {
@@ -432,10 +465,21 @@ func (eng *Engine) replayObligationN(t target, name, kind, verif, prop string, N
 	for _, r := range roots {
 		args = append(args, rp.goExpr(r))
 	}
+	if recipe != "" {
+		call := recipe
+		for i, h := range holes {
+			call = strings.Replace(call, h, args[i], 1)
+		}
+		return eng.runReplayCall(t, rp, nil, call, name, kind, verif, prop)
+	}
 	return eng.runReplay(t, rp, args, name, kind, verif, prop)
 }
 
 func (eng *Engine) runReplay(t target, rp *replayer, args []string, name, kind, verif, prop string) replayResult {
+	return eng.runReplayCall(t, rp, args, "", name, kind, verif, prop)
+}
+
+func (eng *Engine) runReplayCall(t target, rp *replayer, args []string, recipe string, name, kind, verif, prop string) replayResult {
 	fn := t.fn
 	var call string
 	var decl strings.Builder
@@ -452,6 +496,15 @@ func (eng *Engine) runReplay(t target, rp *replayer, args []string, name, kind, 
 		call = fmt.Sprintf("%s(%s)", fn.Name(), strings.Join(an, ", "))
 	}
 	nres := fn.Signature.Results().Len()
+	if recipe != "" {
+		call = recipe
+		nres = 0
+		for _, p := range []string{"bytes", "time", "strings"} {
+			if strings.Contains(recipe, p+".") {
+				rp.imps[p] = true
+			}
+		}
+	}
 	var lhs []string
 	for i := 0; i < nres; i++ {
 		lhs = append(lhs, fmt.Sprintf("r%d", i))
